@@ -83,9 +83,9 @@ func workflowYAML() string {
 // item is one entry of the single ordered log of everything observable about one environment:
 // probe starts (H), task commands / launches / injected bodies (B), environment events (E).
 type item struct {
-	Kind  string `json:"k"`           // "H" | "B" | "E"
-	Name  string `json:"n"`           // trigger | event name | message
-	St    string `json:"st"`          // FSM state read at that instant (Sm.Current())
+	Kind  string `json:"k"`            // "H" | "B" | "E"
+	Name  string `json:"n"`            // trigger | event name | message
+	St    string `json:"st"`           // FSM state read at that instant (Sm.Current())
 	RepSt string `json:"rs,omitempty"` // E: state reported by the event
 	Trans string `json:"tr,omitempty"` // E: transition
 	Step  string `json:"sp,omitempty"` // E: transition step
@@ -215,7 +215,7 @@ func (e *evWriter) WriteEvent(x interface{}) {
 	}
 }
 func (e *evWriter) WriteEventWithTimestamp(x interface{}, _ time.Time) { e.WriteEvent(x) }
-func (e *evWriter) Close()                                            {}
+func (e *evWriter) Close()                                             {}
 
 func buildDir() string {
 	if d := os.Getenv("VERIF_BUILD"); d != "" {
